@@ -16,13 +16,15 @@ EXTENDS XmlLex, TLC, Json
 
 CONSTANTS L,          \* max number of tag-level fragments
           MaxFlips, MaxSkips,
+          SkipAnywhere, \* TRUE: read_to_end may also be called later (after text, children, end tags), with the name of the last Start read
           MaxStreams, \* raw reads through Reader::stream() (0 = none; the reference invariants assume none)
           FlipKeys,   \* switches that may be toggled
           KnownDevs,  \* deviations of known findings: a second track runs with them (expectation `alt`)
           InitCfgs,   \* "default" | "four" (all settings of cen/aue/eee/tmn) | "trim"
           Emit
 
-TagFrags == { <<60,97,62>>, <<60,47,97,62>>, <<60,47,97,32,62>>, <<60,97,98,62>>, <<60,47,97,98,62>>,
+TagFrags == { <<60,97,62>>, <<60,47,97,62>>, <<60,47,97,32,62>>, <<60,47,32,97,62>>, <<60,47,97,12,62>>,      \* ... </a > </ a> </a FF>
+              <<60,97,98,62>>, <<60,47,97,98,62>>,
               <<60,98,62>>, <<60,47,98,62>>, <<60,97,47,62>>, <<120>>, <<32>>,
               <<60,33,45,45,60,47,97,62,45,45,62>>,                 \* <!--</a>-->
               <<60,33,91,67,68,65,84,65,91,60,47,97,62,93,93,62>> } \* <![CDATA[</a>]]>
@@ -99,14 +101,18 @@ Helper == /\ ~done /\ nflips < MaxFlips /\ "helpers" \in FlipKeys
 SkipRow(r) ==
     IF r.ok THEN <<"Span", "", 0, 0, 0, 0, 0, BufferPosition(r.st), r.st.errpos, r.start, r.end, CfgBits(cfg)>>
     ELSE <<"Err", r.e, 0, 0, 0, 0, 0, BufferPosition(r.st), r.st.errpos, 0, 0, CfgBits(cfg)>>
-Skip == /\ ~done /\ nskips < MaxSkips /\ lastStart.fresh
+Skip == /\ ~done /\ nskips < MaxSkips
+        /\ (lastStart.fresh \/ (SkipAnywhere /\ lastStart.hi > lastStart.lo /\ alt.hist = hist))     \* (later skips: only while both tracks agree)
         /\ LET r == ReadToEnd(inp, cfg, st, {}, Slice(inp, lastStart.lo, lastStart.hi)) IN
            /\ st' = r.st
            /\ last' = [op |-> "skip", o |-> [NoneObs EXCEPT !.k = IF r.ok THEN "Span" ELSE "Err", !.e = r.e, !.lo = r.start, !.hi = r.end,
+                                                      !.n = IF lastStart.fresh THEN 1 ELSE 0,
                                                       !.after = BufferPosition(r.st)], pre |-> st, c |-> cfg]
            /\ done' = (~r.ok /\ r.st.ps = "Done")
-           /\ hist' = Append(hist, <<"rte", SkipRow(r)>>)
-           /\ alt' = AltSkip(alt, cfg)
+           /\ hist' = Append(hist, <<IF lastStart.fresh THEN "rte" ELSE "rtea", SkipRow(r)>>)
+           /\ alt' = IF lastStart.fresh THEN AltSkip(alt, cfg)
+                     ELSE LET ra == ReadToEnd(inp, cfg, alt.st, KnownDevs, Slice(inp, alt.ls.lo, alt.ls.hi)) IN
+                          [st |-> ra.st, ls |-> alt.ls, hist |-> Append(alt.hist, <<"rtea", AltSkipRow(ra, cfg)>>)]
         /\ lastStart' = [lastStart EXCEPT !.fresh = FALSE]
         /\ nskips' = nskips + 1
         /\ UNCHANGED <<inp, cfg0, cfg, nflips, nstreams>>
@@ -196,7 +202,7 @@ Inv_SkipRef ==
         IF ref.ok THEN /\ last.o.k = "Span" /\ last.o.lo = ref.start /\ last.o.hi = ref.end
                        /\ last.o.after = ref.after
                        \* the span is strictly between the start tag's '>' and the end tag's '<'
-                       /\ (last.pre.ps # "InsideEmpty" =>
+                       /\ ((last.pre.ps # "InsideEmpty" /\ last.o.n = 1) =>
                              /\ At(inp, ref.start - 1) = GT
                              /\ At(inp, ref.end) = LT /\ At(inp, ref.end + 1) = SLASH)
         ELSE last.o.k = "Err" /\ last.o.e = ref.e
